@@ -419,6 +419,19 @@ def oracle_geo(case, rec):
         both(rec, "geo_" + name + "_corrected" + sfx, name,
              getattr(net, name), getattr(net2, name), p, n, 1e-5, (True,),
              (True,))
+    # link distance distributions need a number of bins.  (Pairwise distances
+    # are bit-identical under relabelling - the kernel is symmetric in the two
+    # nodes - so the histograms must be identical; distributions of SUMS over
+    # neighbours, e.g. of area weighted connectivity, are not compared:
+    # a changed summation order moves values across bin edges.)
+    for nb in (3, 4):
+        for gt, gc in (("spherical", False), ("spherical", True),
+                       ("euclidean", False)):
+            both(rec, "geo_link_distance_distribution_%s%s%s" % (
+                gt, "_corrected" if gc else "", sfx),
+                "link_distance_distribution", net.link_distance_distribution,
+                net2.link_distance_distribution, p, n, 1e-5, (nb, gt, gc),
+                (nb, gt, gc))
     rec.close(np.asarray(net2.node_weights), np.asarray(net.node_weights)[p],
               "geo_node_weights", rtol=1e-6)
     both(rec, "geo_grid_distance", "distance", net.grid.distance,
